@@ -2225,6 +2225,19 @@ def c20_noncanonical_output(out1, m):
     return False
 
 
+def c20_duplicate_output(out1, m):
+    """known finding F25: a graph stage produced a triple the graph already had (dereify_edges collapsing
+    a reified relation onto an identical attribute): the first output holds the same triple twice, and
+    markers and alignments are kept per distinct triple"""
+    try:
+        for g in penman.iterdecode(out1, model=m):
+            if len(set(g.triples)) != len(g.triples):
+                return True
+    except Exception:  # noqa: BLE001
+        return False
+    return False
+
+
 def c20_captures(trees, m, opts):
     """known finding F23: --make-variables gives some node a name that a constant of the same graph
     already has (reset_variables does not avoid the constants), so the constant is read as a
@@ -2340,6 +2353,8 @@ def c20_check(case, known=None):
             return 'KNOWN:F23'
         if opts.get('canonicalizeRoles') and c20_noncanonical_output(out1, m):
             return 'KNOWN:F24'
+        if (opts.get('reifyEdges') or opts.get('dereifyEdges')) and c20_duplicate_output(out1, m):
+            return 'KNOWN:F25'
         return f'not a fixed point: second pass gives {r2["out"]!r} from {out1!r}'
     # several FILE inputs: the run equals the runs of the single files, in order; fed back as ONE
     # stream the output is reproduced except for known finding F22 (no blank line at file boundaries)
